@@ -235,6 +235,33 @@ fn c20_enumerated(cx: &mut Ctx) {
             }
         }
     }
+    // (4c) SO / SI arriving inside an open control sequence are not shifts: the sequence ends
+    // (unknown final) and the active set stays what it was - 8-bit and UTF-8 mode
+    for eight_bit in [true, false] {
+        for start_g1 in [false, true] {
+            idx += 1;
+            if !cx.mine(idx) || !cx.begin_group("shift inside CSI") {
+                continue;
+            }
+            let active = if start_g1 { Table::Vt100 } else { Table::Lat1 };
+            let chars = active.chars().unwrap();
+            let probes: Vec<(Op, String, String)> = [0x5fu32, 0x61, 0x71, 0x7e]
+                .iter()
+                .map(|b| (Op::Feed(char::from_u32(*b).unwrap().to_string()), shown(chars[*b as usize]), format!("shift-in-csi char=0x{:02x}", b)))
+                .collect();
+            for ctl in ["\x1b[\x0e", "\x1b[\x0f", "\x1b[1;2\x0e", "\u{9b}?\x0f", "\x1b[\x0e\x1b[\x0f", "\x1b]0;t\x0e\x07"] {
+                let mut prefix: Vec<Op> = Vec::new();
+                if eight_bit {
+                    prefix.push(Op::Charset("@".into()));
+                }
+                if start_g1 {
+                    prefix.push(Op::Api(Call::ShiftOut));
+                }
+                prefix.push(Op::Feed(ctl.to_string()));
+                probe_cells(cx, PK::Chars, &prefix, &probes, "shift-in-sequence", &format!("8bit={}|g1={}", eight_bit, start_g1), "Parser");
+            }
+        }
+    }
     // (5) save / restore of the charset state
     idx += 1;
     if cx.mine(idx) && cx.begin_group("save-restore") {
@@ -289,7 +316,7 @@ impl Check for C20Check {
         a
     }
     fn required(&self, _t: Tier) -> Vec<&'static str> {
-        vec!["table", "default-sets", "designator", "utf8-not-ignored", "above-255"]
+        vec!["table", "default-sets", "designator", "utf8-not-ignored", "above-255", "shift-in-sequence"]
     }
     fn shard(&self, cx: &mut Ctx) {
         c20_enumerated(cx);
